@@ -112,6 +112,16 @@ func (env *SpecEnv) eval(e *SExpr) Val {
 			fc.viewShift(env.cur, base, lo, base.Ty.Underlying().(*types.Slice).Elem())
 			return Val{T: app("mk-slice", app("s-arr", base.T), fc.addIdx(app("s-off", base.T), lo), fc.subIdx(hi, lo), fc.subIdx(app("s-cap", base.T), lo)), Ty: base.Ty}
 		}
+		if isString(base.Ty) {
+			lo, hi := fc.idxLit(0), app("gs.len", base.T)
+			if e.Args[1] != nil {
+				lo = fc.toIdx(env.eval(e.Args[1]))
+			}
+			if e.Args[2] != nil {
+				hi = fc.toIdx(env.eval(e.Args[2]))
+			}
+			return Val{T: fc.strSub(base.T, lo, hi), Ty: base.Ty}
+		}
 		env.fail(e, "slice expression on %s", base.Ty)
 	}
 	env.fail(e, "unsupported spec expression")
@@ -407,7 +417,13 @@ func (env *SpecEnv) evalCall(e *SExpr) Val {
 			// pkg.Type(x) conversion or pkg.func
 			tn := e.Fun.Args[0].Name + "." + e.Fun.Name
 			if t := fc.tryResolveType(tn, env.homePkg); t != nil && len(e.Args) == 1 {
-				return fc.convert(env.eval(e.Args[0]), t, token.NoPos)
+				a := env.eval(e.Args[0])
+				if _, fromIface := a.Ty.Underlying().(*types.Interface); fromIface {
+					if _, toIface := t.Underlying().(*types.Interface); !toIface {
+						return fc.unbox(a, t) // spec-level type assertion x.(pkg.T)
+					}
+				}
+				return fc.convert(a, t, token.NoPos)
 			}
 		}
 		env.fail(e, "unsupported call form")
